@@ -191,7 +191,7 @@ pub fn run(ctx: &mut Ctx) {
     ctx.run(&cases, |c| c.key(), case);
     // models with an ideal-gas part
     let recs = zoo::dippr_records();
-    let full: Vec<(StateCase, zoo::FullModel)> = cases.iter().filter_map(|c| zoo::with_ideal_gas(&c.entry, &recs).map(|f| (StateCase { entry: c.entry.clone(), x: c.x.clone(), tf: c.tf, eta: c.eta }, f))).collect();
+    let full: Vec<(StateCase, zoo::FullModel)> = cases.iter().filter_map(|c| zoo::with_ideal_gas(&c.entry, &recs).map(|f| (StateCase { entry: c.entry.clone(), x: c.x.clone(), tf: c.tf, eta: c.eta, t_abs: c.t_abs }, f))).collect();
     ctx.run(&full, |c| format!("full|{}", c.0.key()), case_full);
     ctx.assume("continuous coordinates (T, rho, x) covered on the stated lattice only");
 }
